@@ -9,8 +9,16 @@ configuration (sfcf separate / compact, hadrons) the admissible results are the 
 intact) or the result without the cut configuration.  Exported archives (json.gz, xml.gz, csv.gz) must raise at every
 cut offset.
 
-Sub-properties (all kind='enum'): rwms, ms_E, ms_qtop, gfms_qtop, gfms_gf, ms5, sfcf_o, sfcf_c, sfcf_a, hadrons, json_gz, dobs_gz,
-pobs_gz, csv_gz.
+Extension beyond the formats listed in C17 (the statement of C18 speaks of "a measurement file" in general): sub-property
+`pbp` does the same for pbp.dat files read by pyerrors.input.misc.read_pbp (writer vlib/formats/pbp.py; the layout is the one
+the reader states, no sample file ships with the repository).  read_pbp consumes whole records, so only an exception or the
+exact prefix of complete records is admissible.  The cuts are labelled by their position in the record: inside the
+configuration number, inside a block of doubles, or at a boundary between (first block, data block) pairs, i.e. directly
+behind the configuration number, between two factors of one observable or between two observables - the positions at which
+what is left of the record is a whole number of blocks.
+
+Sub-properties (all kind='enum'): rwms, ms_E, ms_qtop, gfms_qtop, gfms_gf, ms5, sfcf_o, sfcf_c, sfcf_a, hadrons, pbp, json_gz,
+dobs_gz, pobs_gz, csv_gz.
 """
 import os
 import random
@@ -20,7 +28,7 @@ import numpy as np
 
 from vlib import findings
 from vlib.core import Sub, Violation, require
-from vlib.formats import common, openqcd_rwms as RW, openqcd_flow as FL, ms5_xsf as M5, sfcf as SF, hadrons as HD
+from vlib.formats import common, openqcd_rwms as RW, openqcd_flow as FL, ms5_xsf as M5, sfcf as SF, hadrons as HD, pbp as PB
 
 PROPERTY = 'C18'
 LEVEL = 'fault_enumeration'
@@ -30,7 +38,10 @@ RULE = ('For each family a seeded list of small file sets (1-2 replicas, 6-10 co
         'and text formats alike, so line boundaries and mid-line positions are both hit); thorough: every offset of every file. '
         'Archives: every offset (quick: every offset of one archive per kind, sampled for the others). Non-trivial: the cut lies '
         'strictly inside a record / compressed stream (not at 0, not at the end of the header, not at a record boundary); '
-        'distinct = distinct (file set, file, offset).')
+        'distinct = distinct (file set, file, offset). Extension beyond the formats listed in C17: family pbp = pbp.dat files of '
+        'read_pbp (1-2 replicas, 6-10 records, 1-3 observables with 1-3 factors of 1-3 sources each; at least one observable with '
+        'several factors in two of three sets), same offsets, same verdict (exception or exact prefix of complete records); '
+        'labels pbp_cut:* count the cuts inside the configuration number, inside a block and at block-pair boundaries inside a record.')
 ASSUMPTIONS = ['any Exception raised by the reader counts as rejection; warnings do not',
                'a record whose used numbers are complete although an unused trailing block is cut may be returned (k\' = complete + 1)',
                'per-configuration files (sfcf separate / compact, hadrons): complete result or result without the cut configuration',
@@ -154,13 +165,47 @@ def gen_hadrons(rnd):
     return fs, {'how': rnd.choice(['meson', 'gammas', 'attrs']), 'entry': 0, 'ens_id': 'A', 'listing': 'sorted'}
 
 
+def gen_pbp(rnd, iset=0):
+    # extension beyond the formats of C17: pbp.dat files of read_pbp.  Two of three sets have an observable with several factors.
+    nrw = rnd.choice([1, 2, 2, 3])
+    nfct = [rnd.choice([1, 2, 3]) for _ in range(nrw)]
+    if iset % 3 != 2 and max(nfct) == 1:
+        nfct[rnd.randrange(nrw)] = rnd.choice([2, 3])
+    fs = {'fmt': 'pbp', 'prefix': 'ensA', 'nfct': nfct, 'nsrc': [rnd.choice([1, 2, 3]) for _ in range(nrw)],
+          'seed': rnd.randrange(2 ** 31), 'reps': _reps_regular(rnd), 'extra': []}
+    call = {'listing': 'sorted'}
+    if rnd.random() < 0.3:
+        call['print_err'] = True
+    return fs, call
+
+
+def pbp_cut_class(fs, fsobj, rel, k):
+    """Position of a cut of a pbp file relative to the record structure (label only)."""
+    if k < fsobj.header[rel]:
+        return 'pbp_cut:header'
+    for (s, e, c) in fsobj.records[rel]:
+        if s <= k < e:
+            if k == s:
+                return 'pbp_cut:record_boundary'
+            if k < s + 4:
+                return 'pbp_cut:inside_cfg_number'
+            pos, bounds = s + 4, set()
+            for nf, ns in zip(fs['nfct'], fs['nsrc']):
+                for _ in range(nf):
+                    bounds.add(pos)
+                    pos += 16 * ns
+            mult = max(fs['nfct']) > 1
+            return 'pbp_cut:block_pair_boundary' + ('_several_factors' if mult else '') if k in bounds else 'pbp_cut:inside_block'
+    return 'pbp_cut:record_boundary'
+
+
 FAMILIES = {
     'rwms': (RW, gen_rwms), 'ms_E': (FL, gen_ms_E), 'ms_qtop': (FL, gen_ms_qtop), 'gfms_qtop': (FL, gen_gfms_qtop),
     'gfms_gf': (FL, gen_gfms_gf), 'ms5': (M5, gen_ms5),
     'sfcf_o': (SF, lambda rnd: _sfcf(rnd, 'o')), 'sfcf_c': (SF, lambda rnd: _sfcf(rnd, 'c')), 'sfcf_a': (SF, lambda rnd: _sfcf(rnd, 'a')),
-    'hadrons': (HD, gen_hadrons),
+    'hadrons': (HD, gen_hadrons), 'pbp': (PB, gen_pbp),
 }
-NSETS = {'quick': {'default': 6, 'rwms': 9, 'gfms_gf': 4, 'gfms_qtop': 6, 'sfcf_c': 6, 'sfcf_o': 6, 'hadrons': 2}, 'thorough': {'default': 12, 'rwms': 18, 'hadrons': 6}}
+NSETS = {'quick': {'default': 6, 'rwms': 9, 'gfms_gf': 4, 'gfms_qtop': 6, 'sfcf_c': 6, 'sfcf_o': 6, 'hadrons': 2, 'pbp': 6}, 'thorough': {'default': 12, 'rwms': 18, 'hadrons': 6}}
 PER_CFG_FILES = ('sfcf_o', 'sfcf_c', 'hadrons')
 LENIENT = ('ms_E', 'ms_qtop', 'gfms_qtop', 'gfms_gf')
 
@@ -295,7 +340,7 @@ def judge(family, fs, call, fsobj, rel, k, path):
         cands = [('prefix', dict(limit={rep: ncomp}))]
         # A partial record whose *used* numbers are complete is tolerated only for the readers that skip the rest of a
         # record by design (ms.dat: arrays after the requested one; gfms: observables after the requested one).  The readers
-        # that consume whole records (rwms, ms5_xsf, sfcf appended) must not hand out anything from a partial record.
+        # that consume whole records (rwms, ms5_xsf, sfcf appended, pbp) must not hand out anything from a partial record.
         if ncomp + 1 <= total and family in LENIENT:
             cands.append(('prefix_plus_partial_record_with_complete_used_numbers', dict(limit={rep: ncomp + 1})))
     for lab, kw in cands:
@@ -317,7 +362,7 @@ def cut_oracle_factory(family):
         with common.tempdir('verif_c18_') as d:
             fsobj.write(d, cut=(rel, k))
             lab, nt = judge(family, fs, call, fsobj, rel, k, d)
-        return {'nt': nt, 'cls': [lab]}
+        return {'nt': nt, 'cls': [lab] + ([pbp_cut_class(fs, fsobj, rel, k)] if family == 'pbp' else [])}
     return oracle
 
 
@@ -347,7 +392,7 @@ def family_enum(family):
         rnd = random.Random('%s:%s' % (seed, family))
         nsets = -(-NSETS[tier].get(family, NSETS[tier]['default']) // nshards)
         for iset in range(nsets):
-            fs, call = gen(rnd, iset) if family == 'rwms' else gen(rnd)
+            fs, call = gen(rnd, iset) if family in ('rwms', 'pbp') else gen(rnd)
             fsobj = mod.build(fs)
             # the untruncated set must read correctly (otherwise the harness is wrong, not the reader)
             files = sorted(f for f in fsobj.files if fsobj.records[f])
@@ -382,7 +427,10 @@ def family_enum(family):
                         except Violation as e:
                             e.spec = spec
                             raise
-                        stats.record(spec, {'nt': nt, 'cls': [lab, 'set:%d' % iset] + (['file_fully_enumerated'] if full and k == offs[0] else [])})
+                        cls = [lab, 'set:%d' % iset] + (['file_fully_enumerated'] if full and k == offs[0] else [])
+                        if family == 'pbp':
+                            cls.append(pbp_cut_class(fs, fsobj, rel, k))
+                        stats.record(spec, {'nt': nt, 'cls': cls})
                     with open(p, 'wb') as fh:
                         fh.write(data)
     return enum
